@@ -2822,7 +2822,8 @@ class Stream:
         try:
             file_stat = os.stat(obj.name)
             buffer_size = file_stat.st_blksize
-        except (FileNotFoundError, PermissionError, OSError):
+        except (FileNotFoundError, PermissionError, OSError, AttributeError):
+            # An in-memory stream has no name (and no file to stat), use the default size
             buffer_size = 8192
 
         self._obj = obj
